@@ -89,8 +89,13 @@ def chunked(seq, n):
         yield buf
 
 
+_STOP_EVENT = None      # set by run_parallel before the pool forks; workers skip their chunk once it is set
+
+
 def _worker(job):
     modname, fname, chunk = job
+    if _STOP_EVENT is not None and _STOP_EVENT.is_set():
+        return 0, [], []
     import importlib
     f = getattr(importlib.import_module(modname), fname)
     out = []
@@ -111,6 +116,8 @@ def run_parallel(clause, modname, fname, cases, chunk=2000, max_violations=50):
     """same as run_cases but on a process pool; func is addressed by module/function name"""
     import multiprocessing as mp
     func_name = '%s:%s' % (modname, fname)
+    global _STOP_EVENT
+    _STOP_EVENT = mp.Event()
     with mp.Pool(NPROC) as pool:
         jobs = ((modname, fname, c) for c in chunked(cases, chunk))
         for n, hashes, out in pool.imap_unordered(_worker, jobs):
@@ -124,7 +131,8 @@ def run_parallel(clause, modname, fname, cases, chunk=2000, max_violations=50):
                 # the clause is decided (the check exits 1 with these replay records): the remaining cases are not
                 # run -- on a tree where every failing case costs a time-out this keeps the check within minutes.
                 # Never taken on a tree that holds the property (no violation is recorded there).
+                # (no pool.terminate(): it can dead-lock while results are in flight; the workers see the event and
+                # return at once, the loop drains what is queued)
                 clause.stopped_early = True
-                pool.terminate()
-                break
+                _STOP_EVENT.set()
     return clause
